@@ -19,13 +19,13 @@ import concurrent.futures
 import vlib
 
 PID = "C18"
-SCHEMA = 'root = [uint, ? any] / {"f": (uint .feature "f1")} / [+ [tstr, uint]]\n'
+SCHEMA = 'root = [uint, ? any] / {"f": (uint .feature "f1")} / [+ [tstr, uint]] / [true, fc]\nfc = "v" .feature "f1" / 2 .feature "f1"\n'
 BAD_SCHEMA = "root = [ uint\n"
 # candidate documents per route: (bytes/text, depends on features?)
-JSON_DOCS = ["[1]", "[2, \"x\"]", "[\"x\"]", "{}", "{\"f\":\"x\"}", "{\"f\":1}", "true", "[1"]
-CBOR_DOCS = ["8101", "820261", "816178", "a0", "a161666178", "a1616601", "f5", "81"]
+JSON_DOCS = ["[true,3]", "[true,2]", "[1]", "[2, \"x\"]", "[\"x\"]", "{}", "{\"f\":\"x\"}", "{\"f\":1}", "true", "[1"]
+CBOR_DOCS = ["82f503", "82f502", "8101", "820261", "816178", "a0", "a161666178", "a1616601", "f5", "81"]
 CSV_DOCS = ["a,1\n", "a,1\nb,2\n", "a,b\n", "1,a\n"]
-STDIN_CBOR = ["8101", "816178", "8200f5", "81f6", "a16166f4", "a161661880"]
+STDIN_CBOR = ["82f503", "82f502", "8101", "816178", "8200f5", "81f6", "a16166f4", "a161661880"]
 
 
 def build_cli():
@@ -76,6 +76,14 @@ def run_one(args):
         hdr = rnd.random() < 0.3
         stdin_data = None
         names = []
+
+        def pick(cands, op, h=False):
+            """with --features prefer documents whose library verdict depends on the feature list"""
+            if inv["feat"]:
+                sens = [x for x in cands if lv[False][(op, x, h)] != lv[True][(op, x, h)]]
+                if sens and rnd.random() < 0.8:
+                    return rnd.choice(sens)
+            return rnd.choice(cands)
         for k, doc in enumerate(inv["docs"]):
             route = doc["route"]
             want = doc["lib"]
@@ -83,14 +91,14 @@ def run_one(args):
                 path = os.path.join(d, "d%d.json" % k)
                 if doc["exists"]:
                     cands = [x for x in JSON_DOCS if verd[("validate_json", x, False)] == want]
-                    open(path, "w").write(rnd.choice(cands))
+                    open(path, "w").write(pick(cands, "validate_json"))
                 argv += ["--json", path]
                 names.append(path)
             elif route == "cbor":
                 path = os.path.join(d, "d%d.cbor" % k)
                 if doc["exists"]:
                     cands = [x for x in CBOR_DOCS if verd[("validate_cbor", x, False)] == want]
-                    open(path, "wb").write(bytes.fromhex(rnd.choice(cands)))
+                    open(path, "wb").write(bytes.fromhex(pick(cands, "validate_cbor")))
                 argv += ["--cbor", path]
                 names.append(path)
             elif route == "csv":
@@ -99,17 +107,17 @@ def run_one(args):
                     cands = [x for x in CSV_DOCS if verd[("validate_csv", x, hdr)] == want]
                     if not cands:
                         return ("skip", inv, None)
-                    open(path, "w").write(rnd.choice(cands))
+                    open(path, "w").write(pick(cands, "validate_csv", hdr))
                 argv += ["--csv", path]
                 names.append(path)
             elif route == "stdin-json":
                 cands = [x for x in JSON_DOCS if verd[("validate_json", x, False)] == want]
-                stdin_data = rnd.choice(cands).encode()
+                stdin_data = pick(cands, "validate_json").encode()
                 argv += ["--stdin"]
                 names.append("stdin")
             else:
                 cands = [x for x in STDIN_CBOR if verd[("validate_cbor", x, False)] == want]
-                stdin_data = bytes.fromhex(rnd.choice(cands))
+                stdin_data = bytes.fromhex(pick(cands, "validate_cbor"))
                 argv += ["--stdin"]
                 names.append("stdin")
         if hdr and any(doc["route"] == "csv" for doc in inv["docs"]):
